@@ -278,14 +278,22 @@ def run_unit(modname, target, label, timeout_ms=10000, replay_dir=None, prop="C?
            "assumptions": [], "violations": [], "paths": 0, "covers": 0}
     try:
         cmod = importlib.import_module(modname)
-        allc = dict((c.target, c) for c in getattr(cmod, "ALL_CONTRACTS", cmod.CONTRACTS))
-        contract = [c for c in cmod.CONTRACTS if c.target == target][0]
+        contract = [c for c in cmod.CONTRACTS if c.name == target][0]
         configs = cmod.configs_for(contract) if hasattr(cmod, "configs_for") else {"": {}}
         config = configs[label]
-        call_contracts = dict((k, c) for k, c in allc.items() if k != target or c.kind == "function")
+        call_contracts = {}
+        for c in getattr(cmod, "ALL_CONTRACTS", cmod.CONTRACTS):
+            if c.target == contract.target and c.kind != "function":
+                continue        # a generator under verification never calls itself
+            call_contracts.setdefault(c.target, []).append(c)
         eng = Interp(contracts=call_contracts)
         fs = eng.verify(contract, config, label)
         res["function"] = fs.describe()
+        # induction steps of the lemmas attached to the spec functions this unit used
+        from . import spec as _spec
+        from .engine import Obligation
+        for nm, hyps, goal in _spec.lemma_obligations():
+            eng.obligations.append(Obligation("lemma-induction/%s" % nm, "lemma", hyps, goal, 0, "induction step of the spec lemma"))
         discharge.discharge_all(eng.obligations, timeout_ms)
         seen = set()
         for ob in eng.obligations:
@@ -303,6 +311,10 @@ def run_unit(modname, target, label, timeout_ms=10000, replay_dir=None, prop="C?
             if ob.status == "refuted":
                 rec.update(_replay_refuted(eng, contract, config, ob, label, replay_dir, prop))
             res["obligations"].append(rec)
+        if eng.covers == 0 and not eng.undecided:
+            # the solver could not exhibit a reachable exit (quantified precondition): look for native witnesses
+            res["covers_native"] = precondition_witnesses(contract, config)
+            eng.covers = res["covers_native"]
         res["undecided"] = ["%s: %s" % u for u in eng.undecided]
         res["assumptions"] = sorted(eng.assumed)
         res["inlined"] = sorted(eng.inlined)
@@ -369,6 +381,34 @@ def native_search(contract, config, budget_s=20.0, seed=0, n=400):
         if rp.get("requires_ok", True) and rp["violated"]:
             return (inputs, rp), tried
     return None, tried
+
+
+def precondition_witnesses(contract, config, n=150, seed=1):
+    """number of example inputs that satisfy the precondition natively and run to completion (vacuity guard
+    when the solver answers 'unknown' on the satisfiability of a quantified precondition)"""
+    import random
+    rng = random.Random(seed)
+    cols = {}
+    for k, m in contract.params.items():
+        if k in (config or {}):
+            continue
+        ex = m.examples(rng, 60) if hasattr(m, "examples") else []
+        if not ex:
+            return 0
+        cols[k] = ex
+    hits = 0
+    keys = sorted(cols)
+    for _ in range(n):
+        inputs = dict((k, rng.choice(cols[k])) for k in keys)
+        try:
+            rp = timed_replay(contract, config, inputs, 2)
+        except Exception:
+            continue
+        if rp.get("requires_ok") and (rp.get("result") is not None or rp.get("exception") is not None):
+            hits += 1
+            if hits >= 3:
+                break
+    return hits
 
 
 def _replay_refuted(eng, contract, config, ob, label, replay_dir, prop):
